@@ -35,6 +35,7 @@ type World struct {
 	StateKs  [][]byte
 	Nonce    int64
 	Emit     func(op, impl string)
+	MainTok  string // committed local data (LODB-vf…) of the node's chain db
 }
 
 // executors a generated transaction may name
@@ -132,15 +133,19 @@ func (w *World) Setup() {
 		{{"vfa", "mavl-vfa-k2", "c0"}, {"vfb", "mavl-vfb-k1", "c1"}, {"vfb", "mavl-vfb-k2", "c2"}, {"vfd", "mavl-vfd-k0", "c3"},
 			{"user.vfa.x1", "mavl-user.vfa.x1-k0", "c4"}, {"vfd", "mavl-vfd-fr-k0", "c5"}},
 	}
-	for _, ws := range writes {
+	for bi, ws := range writes {
 		txs := []*types.Transaction{
 			util.CreateCoinsTx(n.Cfg, n.GenKey, w.Senders[1].Addr, 2*Fee+Fee/2),
 			util.CreateCoinsTx(n.Cfg, n.GenKey, w.Senders[2].Addr, Fee/2),
 		}
 		for _, x := range ws {
 			w.Nonce++
-			txs = append(txs, n.MakeTx(TxSpec{Priv: n.GenKey, Execer: x[0], Fee: Fee, Nonce: w.Nonce,
-				ExecOps: []Op{mkop("S", x[1], x[2])}}))
+			spec := TxSpec{Priv: n.GenKey, Execer: x[0], Fee: Fee, Nonce: w.Nonce, ExecOps: []Op{mkop("S", x[1], x[2])}}
+			if bi == 2 && SameTime(x[0]) {
+				// local KVs: this block is added to the chain below, which persists them in the chain db
+				spec.LocOps = []Op{mkop("LD", "LODB-"+x[0]+"-k0", "m"+x[2]), mkop("LD", "LODB-"+x[0]+"-m"+x[2], "m1")}
+			}
+			txs = append(txs, n.MakeTx(spec))
 		}
 		b, det, err := n.CommitBlock(n.Genesis, txs)
 		if err != nil {
@@ -155,6 +160,29 @@ func (w *World) Setup() {
 			}
 		}
 		w.Bases = append(w.Bases, Base{Block: b, StoreTok: w.storeToken(b.StateHash)})
+	}
+	// connect the last base block to the chain: procExecAddBlock runs the ExecLocal of its transactions
+	// and the blockchain module writes the resulting local KVs to its db -- the "main" layer under
+	// every later block's local transaction.
+	last := w.Bases[len(w.Bases)-1].Block
+	if _, _, _, err := n.Mock.GetBlockChain().ProcessBlock(false, &types.BlockDetail{Block: last}, "self", true, 0); err != nil {
+		panic(err)
+	}
+	vals, err := n.Mock.GetAPI().LocalList(&types.LocalDBList{Prefix: []byte("LODB-vf"), Count: 0, Direction: 1 | 4})
+	if err != nil {
+		panic(err)
+	}
+	var parts []string
+	for _, v := range vals.Values {
+		var kv types.KeyValue
+		if e := types.Decode(v, &kv); e != nil {
+			panic(e)
+		}
+		parts = append(parts, Hx(kv.Key)+"="+Hx(kv.Value))
+	}
+	w.MainTok = "-"
+	if len(parts) > 0 {
+		w.MainTok = strings.Join(parts, ",")
 	}
 }
 
@@ -212,7 +240,7 @@ func (w *World) Run(bi int, units []Unit) *Result {
 	b := w.Bases[bi]
 	ResetRecorder()
 	rs, e := w.N.ExecTxList(b.Block.StateHash, b.Block.Height+1, b.Block.BlockTime+1, txs)
-	opline := fmt.Sprintf("blk 11111 b%d %s %s - %s", bi, w.AddrsTok, b.StoreTok, strings.Join(toks, " "))
+	opline := fmt.Sprintf("blk 11111 b%d %s %s %s %s", bi, w.AddrsTok, b.StoreTok, w.MainTok, strings.Join(toks, " "))
 	res := &Result{}
 	switch {
 	case e == "blockpanic":
